@@ -207,6 +207,10 @@ def check(ctx, case):
 
 
 def finalize(ctx):
+    if ctx.tier == "thorough" and ctx.shard == 0:  # ambient contracts while the repository's own pinned tests run
+        from vf import ambient
+
+        ambient.run_tests(ctx, "C01", ["tests/data/test_confmaps.py", "tests/data/test_get_data_chunks.py"], ["generate_confmaps", "generate_multiconfmaps"])
     for v in VARIANTS:
         ctx.require("real_calls:" + v, 1)
 
